@@ -166,13 +166,20 @@ def check_case(ctx, case):
     else:
         R2 = 6371.0 ** 2
         areas = numpy.asarray(o.value, dtype=float)
-        for i in idxs[:200]:
+        if areas.shape != (n,):
+            ctx.violation("cell_area_wrong_shape", {"got": list(areas.shape), "want": [n]})
+            areas = None
+        # asked again on the same grid: one area per cell, the same numbers
+        o_again = call(region.get_cell_area)
+        if areas is not None and (not o_again.ok or numpy.asarray(o_again.value).shape != (n,) or not numpy.array_equal(numpy.asarray(o_again.value, dtype=float), areas)):
+            ctx.violation("cell_areas_change_when_asked_again", {"first": n, "second": repr(getattr(o_again, "exc", None)) if not o_again.ok else list(numpy.asarray(o_again.value).shape)})
+        for i in (idxs[:200] if areas is not None else []):
             w, s, e, nn = b[i]
             want = R2 * (math.sin(math.radians(nn)) - math.sin(math.radians(s))) * math.radians(e - w)
             if abs(areas[i] - want) > 1e-9 * want:
                 ctx.violation("cell_area_wrong", {"key": keys[i], "got": float(areas[i]), "want": want})
                 break
-        if glob:
+        if glob and areas is not None:
             want = 2 * math.pi * R2 * (math.sin(math.radians(PHI)) - math.sin(math.radians(-PHI)))
             tot = math.fsum(areas.tolist())
             if abs(tot - want) > 1e-9 * want:
